@@ -240,13 +240,42 @@ def build_generated(rng):
     gl.append("@end")
     stm.append(("\n".join(gl), "block"))
     extra["group"] = ("GX", ["zgx0u", "zgx1u"])
+    # two more groups, one of them using the others; the comma-separated `using` lists are written in
+    # the layouts a person may type (blanks before and / or after the comma)
+    seps = (", ", ",", " , ", " ,", ",  ")
+    members = {"GX": ["zgx0u", "zgx1u"]}
+    for gname, uses in (("GY", []), ("GZ", ["GX", "GY"])):
+        ref = rng.choice(mult)
+        fac = F(rng.randint(2, 99), rng.randint(1, 9))
+        name = f"z{gname.lower()}u"
+        head = f"@group {gname}"
+        if uses:
+            head += " using " + rng.choice(seps).join(uses)
+        stm.append((f"{head}\n    {name} = {fac.numerator} / {fac.denominator} * {ref}\n@end", "block"))
+        g.units[name] = dict(factor=fac * g.units[ref]["factor"], root=dict(g.units[ref]["root"]),
+                             dims=dict(g.units[ref]["dims"]), kind="mult", is_base=False, name=name,
+                             symbol=None, aliases=[])
+        g.spell[name] = name
+        members[gname] = sorted(set([name] + [u for x in uses for u in members[x]]))
+    extra["groups"] = members
     # system: replace one root by a unit with root {r: 1}
     r = rng.choice(roots)
     cands = [c for c in mult if g.units[c]["root"] == {r: F(1)} and c != r]
+    if not cands:
+        # no unit proportional to a root unit yet: define one, so that every file has a system
+        fac = F(rng.randint(2, 99), rng.randint(1, 9))
+        stm.append((f"zsxu = {fac.numerator} / {fac.denominator} * {r}", "unit"))
+        g.units["zsxu"] = dict(factor=fac * g.units[r]["factor"], root=dict(g.units[r]["root"]),
+                               dims=dict(g.units[r]["dims"]), kind="mult", is_base=False, name="zsxu",
+                               symbol=None, aliases=[], stress=0.0)
+        g.spell["zsxu"] = "zsxu"
+        cands = ["zsxu"]
     if cands:
         n = rng.choice(cands)
-        stm.append((f"@system SX using GX\n    {n}\n@end", "block"))
+        used = rng.choice((["GX"], ["GX", "GY"], ["GY", "GX"], ["GZ", "GX"], ["GX", "GY", "GZ"]))
+        stm.append((f"@system SX using {rng.choice(seps).join(used)}\n    {n}\n@end", "block"))
         extra["system"] = ("SX", n, r)
+        extra["system_members"] = sorted({u for x in used for u in members[x]})
     # context between two root dimensions, with a parameter and a redefinition-free body
     if len(roots) >= 2:
         a, b = rng.sample(roots, 2)
@@ -298,6 +327,8 @@ def battery(ureg, g, extra, nit, rec):
         put(("derived-dim", dname), lambda dname=dname: sorted((k, fstr(v)) for k, v in dict(ureg.get_dimensionality(dname)).items()))
     if "group" in extra:
         put(("group",), lambda: sorted(ureg.get_group("GX", False).members))
+    for gname in extra.get("groups", ()):
+        put(("group-members", gname), lambda gname=gname: sorted(ureg.get_group(gname, False).members))
     if "system" in extra:
         S, n, r = extra["system"]
         put(("system-members",), lambda: sorted(ureg.get_system(S, False).members))
@@ -428,6 +459,19 @@ def run_generated(spec, rec, rng, pint):
                         rec.violation("truth-symbol", {"text": base_text, "spelling": s,
                                                        "got": ref.get(("symbol", s)), "want": want_sym},
                                       path="lines", probe="symbol")
+                for gname, want in extra.get("groups", {}).items():
+                    rec.count("truth_membership_checks")
+                    if ref.get(("group-members", gname)) != want:
+                        rec.violation("truth-members", {"text": base_text, "block": gname,
+                                                        "got": str(ref.get(("group-members", gname)))[:200],
+                                                        "want": str(want)}, path="lines", probe="group-members")
+                if "system_members" in extra:
+                    rec.count("truth_membership_checks")
+                    if ref.get(("system-members",)) != extra["system_members"]:
+                        rec.violation("truth-members", {"text": base_text, "block": "SX",
+                                                        "got": str(ref.get(("system-members",)))[:200],
+                                                        "want": str(extra["system_members"])},
+                                      path="lines", probe="system-members")
                 # (2) observational equivalence of the loading paths
                 for path, ans in answers.items():
                     if path == "lines":
